@@ -83,6 +83,7 @@ fn replay(path: &str) -> i32 {
         "e6_fullstack" => c19::replay(r),
         "e6_will" => c19::replay_will(r),
         "e7_flow" => e7_flow::replay(r),
+        "e7_embedded" => e7_flow::replay_embedded(r),
         "e2_client" => e2::run::replay(r),
         "e3_codec" => e3_codec::replay(r),
         "e4_topicgrid" => e4_topicgrid::replay(r),
